@@ -25,13 +25,45 @@ Proved (safety part of C14):
   state "the only worker waits, a runnable packet exists, no wake-up in flight" is reachable
   (kernel-evaluated witness run).  This is the race the comment in `park_and_wait` describes.
 * `designated_not_forgotten` — designated work exists only during a GC and never while all workers wait.
-* `gc_never_sleeps_partial` — the proved part of "each GC request eventually leads to a completed
+* `gc_never_sleeps_partial` — the safety half of "each GC request eventually leads to a completed
   collection": while a Gc goal is current, never do all workers wait (no deadlock inside a GC), and
-  the transition that makes the last worker wait has no request pending.
+  the transition that makes the last worker wait has no request pending.  (The liveness half is
+  `gc_completes_under_fairness` below.)
 
-Not proved here: the fair-termination half of "eventually" (a decreasing measure under `FairRun`).
-Full statement: for every run in which every enabled worker eventually steps and spurious wake-ups
-are finite, and packets spawn finitely many packets, a requested GC reaches `goalCompleted gc`.
+Proved (liveness part of C14; definitions and the proof are in `Lemmas/SchedLive.lean`):
+* `FairRun c tr act` — an infinite run `tr 0 →(act 0) tr 1 → …` (`act k = none`: stutter) from a reachable
+  state with *weak fairness* of each worker's loop actions: `finish w` (`execEnd`: a running packet
+  terminates), `take w` (some poll / pop / steal of `w`), `look w k` (`observeEmpty w k`), `miss w`, `park w`,
+  `wake w`, `surrender w`: none of them is continuously enabled from some point on without being taken.
+  What a running packet does, mutator / binding actions and spurious wake-ups are unconstrained by `FairRun`.
+* explicit hypotheses: `FiniteSpawn` (finitely many packets are created: `added` is bounded along the run),
+  `FiniteEnv` (from some point on only GC workers act: finitely many mutator actions **and finitely many
+  spurious wake-ups**), `NoAssert` (a worker about to park can park: no debug assertion of
+  `on_last_parked` fires; the model disables `park` exactly where the code panics), `mutAddOpen = false`,
+  `GcPending` (a Gc request is pending or a Gc goal is current, no exit goal is current, no worker thread has
+  surrendered).
+* `all_workers_park_eventually` (= `last_park_eventually`) — the progress lemma: the run reaches a `park` of the
+  last parker (the worker that runs `on_last_parked`).  Proof: otherwise the counters `started`, `ended` are
+  eventually constant, no worker runs a packet (`finish` fairness), only "quiet" steps remain, every worker ends
+  up waiting (`take`/`look`/`miss`/`park`/`wake` fairness + invariant C: no stranded packet), which
+  contradicts invariant B (the last parker never sleeps on a request) — `Stuck.false`.
+* `request_leads_to_goal` — a pending Gc request becomes the current goal.
+* `gc_in_progress_completes` (= `gc_done_changes`) — a Gc goal in progress completes: otherwise `on_last_parked`
+  runs infinitely often; each time it empties a sentinel slot, opens a closed bucket (both can happen only
+  finitely often: flags are monotone during a GC) or finds designated work — and then the designated worker,
+  once woken, can take its packet forever and by `take` fairness does, contradicting "no packet starts".
+* **`gc_completes_under_fairness`** — the full statement: under the hypotheses above the run reaches the
+  transition that completes *that* GC: `gcDone` is unchanged up to it and one larger after it; it is the `park`
+  of the last parker while the Gc goal is current and every other worker is parked; afterwards all
+  stop-the-world buckets are closed and empty, no worker runs a packet, all local deques are empty.
+* `live_hypotheses_satisfiable` — a concrete run (1 worker, request → ScheduleCollection → completion →
+  sleep, then stuttering) satisfies every hypothesis (kernel-evaluated), and the theorem applied to it.
+Why `FiniteEnv` (finitely many spurious wake-ups) and not "spurious wake-ups allowed without bound": with two
+workers A, B the schedule  A.spurious, A.wake, B.park, A.observe…, A.pollMiss, B.spurious, B.wake, A.park, …
+is weakly fair for every class above and never lets `parked_workers` reach `n`: the GC never completes.  The
+hypothesis cannot be dropped; it is the model's form of "spurious wake-ups are rare".  (Not proved as a Lean
+counterexample — it needs an infinite fair run with unboundedly many wake-ups; only the argument is given.)
+Not assumed: any bound on what a packet does while it runs, on the number of workers, on the interleaving.
 -/
 namespace Mmtk.Sched
 
